@@ -289,4 +289,107 @@ theorem numeralValue_encode (bs : List UInt8) (hlen : 0 < bs.length) (s : List C
   apply Nat.mod_eq_of_lt
   exact Nat.lt_of_lt_of_le (leValue_lt bs) (pow32_ge bs.length hlen)
 
+/-! ## headers -/
+
+theorem hdrGet_insert (a b : Headers) (n v name : List Char) (hn : hdrNameEq n name = false) :
+    hdrGet (a ++ (n, v) :: b) name = hdrGet (a ++ b) name := by
+  induction a with
+  | nil => simp [hdrGet, hn]
+  | cons x a ih =>
+    obtain ⟨n', v'⟩ := x
+    simp only [List.cons_append, hdrGet, ih]
+
+/-- the service function reads the header map only through the two look-ups -/
+theorem service_headers_congr (cfg : Cfg) (req : Req) (hs : Headers)
+    (h1 : hdrContains hs acrmName = hdrContains req.headers acrmName)
+    (h2 : hdrGet hs acrhName = hdrGet req.headers acrhName) :
+    service cfg { req with headers := hs } = service cfg req := by
+  obtain ⟨m, p, hs0, b⟩ := req
+  simp only at h1 h2
+  simp only [service, Req.hasACRM, Req.acrh, h1, h2]
+  rfl
+
+/-! ## request-target -/
+
+theorem takeWhile_dropWhile_not {α : Type} (p : α → Bool) (l : List α) :
+    l = l.takeWhile (fun c => !p c) ++ l.dropWhile (fun c => !p c) := by
+  simp
+
+theorem mem_takeWhile_not {α : Type} (p : α → Bool) (l : List α) (c : α)
+    (hc : c ∈ l.takeWhile (fun c => !p c)) : p c = false := by
+  induction l with
+  | nil => simp at hc
+  | cons x l ih =>
+    rw [List.takeWhile_cons] at hc
+    by_cases hx : p x
+    · simp [hx] at hc
+    · simp only [hx, Bool.not_false, if_true, List.mem_cons] at hc
+      rcases hc with rfl | hc
+      · simpa using hx
+      · exact ih hc
+
+/-- Whatever form the request-target has: if the path hyper hands to the service function begins with
+a prefix `"/" ++ (non-empty token)`, the prefix stands literally in the request-target, at the start
+of its path. -/
+theorem pathOfTarget_literal (t p pfx : List Char) (hp : pathOfTarget t = some p)
+    (hslash : pfx.head? = some '/') (hlen : 2 ≤ pfx.length) (h : pfx <+: p) : LiteralUnder pfx t := by
+  unfold pathOfTarget at hp
+  split at hp
+  · exact absurd hp (by simp)
+  · -- origin-form
+    left
+    have hp' := (Option.some.inj hp).symm
+    rw [hp'] at h
+    exact List.IsPrefix.trans h (List.takeWhile_prefix _)
+  · -- `*`
+    have hp' : p = ['*'] := (Option.some.inj hp).symm
+    subst hp'
+    obtain ⟨r, hr⟩ := h
+    cases pfx with
+    | nil => simp at hslash
+    | cons c cs =>
+      simp at hslash
+      subst hslash
+      simp at hr
+  · split at hp
+    · -- absolute-form
+      rename_i rest hrest
+      have ht := (stripPrefix_eq_some_iff httpScheme t rest).mp hrest
+      let sep : Char → Bool := fun c => c = '/' || isPathEnd c
+      have hsplit : rest = rest.takeWhile (fun c => !sep c) ++ rest.dropWhile (fun c => !sep c) :=
+        takeWhile_dropWhile_not sep rest
+      simp only at hp
+      split at hp
+      · rename_i x tl hafter
+        right
+        refine ⟨rest.takeWhile (fun c => !sep c), ?_, ?_⟩
+        · intro c hc
+          have := mem_takeWhile_not sep rest c hc
+          simp only [sep, isPathEnd, Bool.or_eq_false_iff, decide_eq_false_iff_not] at this
+          exact ⟨this.1, this.2.1, this.2.2⟩
+        · have hp' := (Option.some.inj hp).symm
+          rw [hp'] at h
+          have h2 : pfx <+: rest.dropWhile (fun c => !sep c) :=
+            List.IsPrefix.trans h (List.takeWhile_prefix _)
+          obtain ⟨r, hr⟩ := h2
+          refine ⟨r, ?_⟩
+          rw [ht]
+          conv => rhs; rw [hsplit]
+          rw [← hr]
+          simp only [List.append_assoc]
+      · have hp' := (Option.some.inj hp).symm
+        subst hp'
+        obtain ⟨r, hr⟩ := h
+        have := congrArg List.length hr
+        simp at this
+        omega
+    · -- authority-form
+      split at hp
+      · exact absurd hp (by simp)
+      · have hp' := (Option.some.inj hp).symm
+        subst hp'
+        have := List.IsPrefix.length_le h
+        simp only [List.length_nil] at this
+        omega
+
 end Server
